@@ -152,11 +152,11 @@ class FloatValidatorBase(FieldValidator[_P, float], Generic[_P, _C], metaclass=A
             ValueError: Value cannot be precisely represented with this datatype
         """
 
-        # Note: This may not be worth it since this is a rare overflow case.
+        # Note: every element is checked on its own: max()/min() are not
+        # reliable here because a NaN in the sequence makes every comparison
+        # False and hides an overflowing neighbour.
         try:
-            if math.isinf(self._ctype(max(value)).value) or math.isinf(
-                self._ctype(min(value)).value
-            ):
+            if any(math.isinf(self._ctype(v).value) for v in value):
                 raise ValueError(
                     f"{value} contains value(s) that can not be represented as a {type(self).__name__}"
                 )
